@@ -32,10 +32,18 @@ inductive ST where
   | math | concatenation | intersection | union
   deriving Repr, DecidableEq, Inhabited
 
+/-- `ArrayPart`: what a token stands for in an array constant.  `{1,2;3,4}` is tokenized as
+    `ARRAY(ARRAYROW(1,2),ARRAYROW(3,4))`; the (crate-private) mark lets `render` write the braces
+    and semicolons back (fix f50ad32) -/
+inductive Arr where
+  | none | array | row
+  deriving Repr, DecidableEq, Inhabited
+
 structure Tok where
   val : List Char
   ty : TT
   sub : ST
+  arr : Arr
   deriving Repr, DecidableEq, Inhabited
 
 /-- `ERRORS` -/
@@ -83,20 +91,20 @@ def LexSt.push (st : LexSt) (t : Tok) : LexSt := { st with toks := st.toks ++ [t
 /-- `if value != "" { push token(value, ty); value = "" }` -/
 def LexSt.flush (st : LexSt) (ty : TT) : LexSt :=
   if st.value = [] then st
-  else { st with toks := st.toks ++ [⟨st.value, ty, .nothing⟩], value := [] }
+  else { st with toks := st.toks ++ [⟨st.value, ty, .nothing, .none⟩], value := [] }
 
 /-- push a Start token on both the token list and the stack -/
 def LexSt.open_ (st : LexSt) (t : Tok) : LexSt :=
   { st with toks := st.toks ++ [t], stack := t :: st.stack }
 
-/-- `stack.pop().unwrap()`, value cleared, subtype Stop, pushed on the token list -/
+/-- `stack.pop().unwrap()`, value cleared, subtype Stop (the array mark stays), pushed on the token list -/
 def LexSt.close (st : LexSt) : LexSt :=
   match st.stack with
   | [] => { st with mode := .dead }
-  | t :: rest => { st with toks := st.toks ++ [⟨[], t.ty, .stop⟩], stack := rest }
+  | t :: rest => { st with toks := st.toks ++ [⟨[], t.ty, .stop, t.arr⟩], stack := rest }
 
-def arrayTok : Tok := ⟨['A', 'R', 'R', 'A', 'Y'], .function, .start⟩
-def arrayRowTok : Tok := ⟨['A', 'R', 'R', 'A', 'Y', 'R', 'O', 'W'], .function, .start⟩
+def arrayTok : Tok := ⟨['A', 'R', 'R', 'A', 'Y'], .function, .start, .array⟩
+def arrayRowTok : Tok := ⟨['A', 'R', 'R', 'A', 'Y', 'R', 'O', 'W'], .function, .start, .row⟩
 
 /-- one iteration of the main loop with all mode flags false -/
 def stepNormal (st : LexSt) (c : Char) : LexSt :=
@@ -108,26 +116,26 @@ def stepNormal (st : LexSt) (c : Char) : LexSt :=
   else if c = ';' then
     let s1 := (st.flush .operand).close
     if s1.mode = .dead then s1
-    else (s1.push ⟨[','], .argument, .nothing⟩).open_ arrayRowTok
+    else (s1.push ⟨[','], .argument, .nothing, .row⟩).open_ arrayRowTok
   else if c = '}' then
     let s1 := (st.flush .operand).close
     if s1.mode = .dead then s1 else s1.close
   else if c = ' ' then
-    { (st.flush .operand).push ⟨[], .whitespace, .nothing⟩ with mode := .skipBlank }
+    { (st.flush .operand).push ⟨[], .whitespace, .nothing, .none⟩ with mode := .skipBlank }
   else if c = '<' || c = '>' then { st.flush .operand with mode := .cmp c }
-  else if isInfixChar c then (st.flush .operand).push ⟨[c], .opInfix, .nothing⟩
-  else if c = '%' then (st.flush .operand).push ⟨[c], .opPostfix, .nothing⟩
+  else if isInfixChar c then (st.flush .operand).push ⟨[c], .opInfix, .nothing, .none⟩
+  else if c = '%' then (st.flush .operand).push ⟨[c], .opPostfix, .nothing, .none⟩
   else if c = '(' then
-    if st.value = [] then st.open_ ⟨[], .subexpression, .start⟩
-    else { st with value := [] }.open_ ⟨st.value, .function, .start⟩
+    if st.value = [] then st.open_ ⟨[], .subexpression, .start, .none⟩
+    else { st with value := [] }.open_ ⟨st.value, .function, .start, .none⟩
   else if c = ',' then
     let s1 := st.flush .operand
     match s1.stack with
     | [] => { s1 with mode := .dead }
     | t :: rest =>
-      let s2 := { s1 with stack := ⟨[], t.ty, .stop⟩ :: rest }
-      if t.ty = .function then s2.push ⟨[','], .opInfix, .union⟩
-      else s2.push ⟨[','], .argument, .nothing⟩
+      let s2 := { s1 with stack := ⟨[], t.ty, .stop, t.arr⟩ :: rest }
+      if t.ty = .function then s2.push ⟨[','], .opInfix, .union, .none⟩
+      else s2.push ⟨[','], .argument, .nothing, .none⟩
   else if c = ')' then (st.flush .operand).close
   else { st with value := st.value ++ [c] }
 
@@ -137,12 +145,12 @@ def step (st : LexSt) (c : Char) : LexSt :=
   | .normal => stepNormal st c
   | .skipBlank => if c = ' ' then st else stepNormal { st with mode := .normal } c
   | .cmp a =>
-    if isMultiCmp a c then { st.push ⟨[a, c], .opInfix, .logical⟩ with mode := .normal }
-    else stepNormal { st.push ⟨[a], .opInfix, .nothing⟩ with mode := .normal } c
+    if isMultiCmp a c then { st.push ⟨[a, c], .opInfix, .logical, .none⟩ with mode := .normal }
+    else stepNormal { st.push ⟨[a], .opInfix, .nothing, .none⟩ with mode := .normal } c
   | .str => if c = '"' then { st with mode := .strQ } else { st with value := st.value ++ [c] }
   | .strQ =>
     if c = '"' then { st with value := st.value ++ ['"'], mode := .str }
-    else stepNormal { st with toks := st.toks ++ [⟨st.value, .operand, .text⟩], value := [], mode := .normal } c
+    else stepNormal { st with toks := st.toks ++ [⟨st.value, .operand, .text, .none⟩], value := [], mode := .normal } c
   | .path => if c = '\'' then { st with mode := .pathQ } else { st with value := st.value ++ [c] }
   | .pathQ =>
     if c = '\'' then { st with value := st.value ++ ['\'', '\''], mode := .path }
@@ -152,7 +160,7 @@ def step (st : LexSt) (c : Char) : LexSt :=
   | .error =>
     let v := st.value ++ [c]
     if errors.contains v then
-      { st with toks := st.toks ++ [⟨v, .operand, .error⟩], value := [], mode := .normal }
+      { st with toks := st.toks ++ [⟨v, .operand, .error, .none⟩], value := [], mode := .normal }
     else { st with value := v }
 
 /-- what the look-ahead modes do when the input ends, then "dump remaining accumulation".
@@ -160,11 +168,11 @@ def step (st : LexSt) (c : Char) : LexSt :=
 def finish (st : LexSt) : LexSt :=
   let s1 : LexSt :=
     match st.mode with
-    | .strQ => { st with toks := st.toks ++ [⟨st.value, .operand, .text⟩], value := [] }
+    | .strQ => { st with toks := st.toks ++ [⟨st.value, .operand, .text, .none⟩], value := [] }
     | .pathQ => { st with value := st.value ++ ['\''] }
-    | .cmp a => st.push ⟨[a], .opInfix, .nothing⟩
+    | .cmp a => st.push ⟨[a], .opInfix, .nothing, .none⟩
     | _ => st
-  if s1.value = [] then s1 else { s1 with toks := s1.toks ++ [⟨s1.value, .operand, .nothing⟩] }
+  if s1.value = [] then s1 else { s1 with toks := s1.toks ++ [⟨s1.value, .operand, .nothing, .none⟩] }
 
 def lexRun (s : List Char) : LexSt := s.foldl step {}
 
@@ -192,7 +200,7 @@ def pass2Go (prev : Option Tok) (lv : List Char) : List Tok → List Tok
       match prev, rest with
       | some p, n :: _ =>
         if isOperandLikeEnd p && isOperandLikeStart n then
-          ⟨lv, .opInfix, .intersection⟩ :: pass2Go (some t) [] rest
+          ⟨lv, .opInfix, .intersection, .none⟩ :: pass2Go (some t) [] rest
         else pass2Go (some t) lv rest
       | _, _ => pass2Go (some t) lv rest
 
@@ -290,7 +298,9 @@ def dblQuote (s : List Char) : List Char :=
   s.flatMap (fun c => if c = '"' then ['"', '"'] else [c])
 
 def renderTok (t : Tok) : List Char :=
-  if t.ty = .function && t.sub = .start then t.val ++ ['(']
+  if t.arr = .array then (if t.sub = .start then ['{'] else ['}'])
+  else if t.arr = .row then (if t.ty = .argument then [';'] else [])
+  else if t.ty = .function && t.sub = .start then t.val ++ ['(']
   else if t.ty = .function && t.sub = .stop then [')']
   else if t.ty = .subexpression && t.sub = .start then ['(']
   else if t.ty = .subexpression && t.sub = .stop then [')']
